@@ -324,6 +324,8 @@ class SBase:
         src = self.dtype
         core.CTX.assumed_used.add('numpy: astype %s->%s' % (src.name, dst.name))
         el = [cast_elem(e, src, dst, 'astype(%s)' % dst.name) for e in self.elems]
+        if self.is_scalar and dst.kind == 'O':
+            return el[0]          # numpy scalar .astype(object) is the python object itself
         return new_like(self.shape, el, dst, scalar=self.is_scalar)
 
     # ---- indexing ----------------------------------------------------------------------
